@@ -139,3 +139,70 @@ func kindOfTwin(files [][3]string, name string) string {
 	}
 	return ""
 }
+
+// ---------------------------------------------------------------------------------------------
+// The writers under ArchiveLicenses (specs/V1ArchiveWriter.tla): a destination that accepts `room` bytes and fails after
+// that.  The rule the model gives: success is reported exactly when the destination accepted the whole archive.
+type awWriter struct {
+	room, got int
+	failed    bool
+}
+
+func (w *awWriter) Write(p []byte) (int, error) {
+	if w.got+len(p) > w.room {
+		n := w.room - w.got
+		w.got = w.room
+		w.failed = true
+		return n, fmt.Errorf("verif: no space left on the destination after %d bytes", w.room)
+	}
+	w.got += len(p)
+	return len(p), nil
+}
+
+func TestVerifArchiveWriter(t *testing.T) {
+	out := vuOpenOut("VERIF_OUT")
+	defer out.Close()
+	n, bad := 0, 0
+	for _, files := range [][]string{{"MIT.txt"}, {"MIT.txt", "ISC.txt", "README.md", "BSD-3-Clause.txt"}, {"Apache-2.0.txt", "GPL-2.0.txt", "MPL-2.0.txt", "LGPL-2.1.txt", "AGPL-3.0.txt", "EPL-1.0.txt"}, {}} {
+		whole := &awWriter{room: 1 << 30}
+		if err := ArchiveLicenses(append([]string(nil), files...), whole); err != nil {
+			t.Fatal(err)
+		}
+		total := whole.got
+		var buf bytes.Buffer
+		ArchiveLicenses(append([]string(nil), files...), &buf)
+		rooms := []int{}
+		for r := 0; r <= 40 && r <= total; r++ {
+			rooms = append(rooms, r)
+		}
+		for r := 41; r < total; r += 1 + total/97 {
+			rooms = append(rooms, r)
+		}
+		for r := total - 12; r <= total+2; r++ {
+			if r > 40 {
+				rooms = append(rooms, r)
+			}
+		}
+		for _, room := range rooms {
+			n++
+			w := &awWriter{room: room}
+			err := ArchiveLicenses(append([]string(nil), files...), w)
+			why := ""
+			// (the archive's size varies by a few bytes from run to run -- the search set is serialised in map order -- so the
+			// rule is stated on what the destination did, not on a size measured before)
+			switch {
+			case !w.failed && err != nil:
+				why = fmt.Sprintf("the destination (room for %d bytes) accepted every byte it was given (%d) and ArchiveLicenses failed: %v", room, w.got, err)
+			case w.failed && err == nil:
+				why = fmt.Sprintf("the destination failed after %d bytes (an archive of these files has about %d) and ArchiveLicenses reported success", room, total)
+			}
+			if why != "" {
+				bad++
+				if bad <= 4 {
+					out.Emit(map[string]interface{}{"kind": "mismatch", "files": files, "room": room, "total": total, "why": why})
+				}
+			}
+		}
+	}
+	out.Emit(map[string]interface{}{"kind": "summary", "vectors": n, "mismatches": bad})
+}
